@@ -8,15 +8,28 @@ use lc3_ensemble::sim::mem::MachineInitStrategy;
 use lc3_ensemble::sim::SimErr;
 use serde_json::Value;
 
-pub fn decode(tape: &[u32]) -> (ExecProg, MachineInitStrategy) {
+/// Trap vectors without a service routine (the OS routes them to its "bad trap" routine, which prints a message and halts).
+const BAD_VECTS: &[u16] = &[0x00, 0x01, 0x02, 0x03, 0x1F, 0x26, 0x7F, 0x80, 0xFF];
+
+pub fn decode(tape: &[u32]) -> (ExecProg, MachineInitStrategy, Option<u16>) {
     let mut t = Tape::new(tape);
-    let p = gen_exec(&mut t, &ExecCfg::default()).unwrap();
+    let mut p = gen_exec(&mut t, &ExecCfg::default()).unwrap();
     let init = if t.chance(1, 2) { MachineInitStrategy::Seeded { seed: t.raw() as u64 } } else { MachineInitStrategy::Known { value: t.u16() } };
-    (p, init)
+    // (read last, so that tapes stored before this was added decode to the same program)
+    // a fifth of the halting programs end in a trap through an unassigned vector instead of HALT: neither HALT nor an
+    // exception, so both settings must run the same OS code (message, then halt) with the same visible result
+    let bad = if p.ending == Ending::Halt && t.chance(1, 5) { Some(*t.choose(BAD_VECTS)) } else { None };
+    if let Some(v) = bad {
+        for w in p.words.iter_mut().filter(|w| **w == 0xF025) {
+            *w = 0xF000 | v;
+        }
+        p.listing.push(format!("; every HALT (xF025) replaced by TRAP x{v:02X} (unassigned vector)"));
+    }
+    (p, init, bad)
 }
 
 pub fn check(tape: &[u32], st: &mut Stats) -> Result<(), String> {
-    let (p, init) = decode(tape);
+    let (p, init, bad_trap) = decode(tape);
     let mut v = build_rig(&spec_for_prog(&p, false, false, init));
     let mut r = build_rig(&spec_for_prog(&p, true, false, init));
     let budget = 200_000;
@@ -25,6 +38,12 @@ pub fn check(tape: &[u32], st: &mut Stats) -> Result<(), String> {
     let dv = v.display.as_ref().unwrap().read().unwrap().clone();
     let dr = r.display.as_ref().unwrap().read().unwrap().clone();
     st.class(&format!("ending:{:?}", p.ending));
+    if let Some(vect) = bad_trap {
+        st.class("ends-in-trap-through-unassigned-vector");
+        if matches!(vect, 0 | 1 | 2) {
+            st.class("unassigned-vector-x00-x02");
+        }
+    }
     if p.info.trap_in_leaf_without_r7_spill {
         st.class("io-trap-in-leaf-subroutine-without-R7-spill");
     }
@@ -38,6 +57,10 @@ pub fn check(tape: &[u32], st: &mut Stats) -> Result<(), String> {
     }
     match p.ending {
         Ending::Halt => {
+            if let (Err(e), Some(vect)) = (&rv, bad_trap) {
+                // also what the real-trap run does below: the vector table entry is the OS's bad-trap routine
+                return Err(format!("a TRAP x{vect:02X} (unassigned vector) fails under virtual traps with {e:?} instead of running the OS routine behind the vector, as it does under real traps ({rr:?}, halted: {})", r.sim.hit_halt()));
+            }
             if let Err(e) = &rv {
                 return Err(format!("HARNESS: halting program failed under virtual traps: {e:?}"));
             }
@@ -104,12 +127,15 @@ pub fn check(tape: &[u32], st: &mut Stats) -> Result<(), String> {
 }
 
 pub fn describe(tape: &[u32]) -> Value {
-    describe_prog(&decode(tape).0)
+    let (p, _, bad) = decode(tape);
+    let mut v = describe_prog(&p);
+    v["unassigned_trap_vector_instead_of_halt"] = serde_json::json!(bad.map(|b| format!("x{b:02X}")));
+    v
 }
 
 pub fn run(ctx: &Ctx) -> Outcome {
     let mut out = Outcome::new(
-        "generated user programs (ALU/memory snippets, counted loops, nested subroutines with stack frames, leaf subroutines that do not spill R7 around their I/O traps, OUT/PUTS/PUTSP/GETC/IN), half ending in HALT and half in one injected fault, half of those while a subroutine frame is open (load/store outside user space, jump to x0000, RTI, reserved opcode, malformed RTI word), \
+        "generated user programs (ALU/memory snippets, counted loops, nested subroutines with stack frames, leaf subroutines that do not spill R7 around their I/O traps, OUT/PUTS/PUTSP/GETC/IN), half ending in HALT (a fifth of those through a TRAP with an unassigned vector x00-x03/x1F/x26/x7F/x80/xFF, i.e. the OS's bad-trap routine, instead of HALT) and half in one injected fault, half of those while a subroutine frame is open (load/store outside user space, jump to x0000, RTI, reserved opcode, malformed RTI word), \
          each run twice from identical machines and keyboard queues: virtual and real traps; halting programs: equal display, R0-R5, user memory, real run stops through the OS; faulting programs: virtual run returns the matching error, real run prints the OS message for that exception after the same output and halts; \
          non-trivial = program has >=1 I/O trap and >=1 call, or faults; distinct by program words",
     );
@@ -117,7 +143,7 @@ pub fn run(ctx: &Ctx) -> Outcome {
     out.shards = cfg.shards;
     out.absorb(tape_search(ctx, "main", &cfg, check, describe));
     out.assumptions.push("the OS messages are the literal texts of the pinned OS image (\"\\n--- Access violation ---\\n\" etc.); the property only says that the OS message for that exception is printed".into());
-    out.essential = ["ending:Halt", "ending:AcvLoad", "ending:AcvStore", "ending:JumpOut", "ending:Rti", "ending:Illegal", "ending:BadFormat", "fault-inside-open-subroutine-frame", "io-trap-in-leaf-subroutine-without-R7-spill"].iter().map(|s| s.to_string()).collect();
+    out.essential = ["ending:Halt", "ending:AcvLoad", "ending:AcvStore", "ending:JumpOut", "ending:Rti", "ending:Illegal", "ending:BadFormat", "fault-inside-open-subroutine-frame", "io-trap-in-leaf-subroutine-without-R7-spill", "ends-in-trap-through-unassigned-vector", "unassigned-vector-x00-x02"].iter().map(|s| s.to_string()).collect();
     out
 }
 
